@@ -31,6 +31,43 @@ def validate_contracts():
     return validate_engine()
 
 
+def _bootstrap_objects(db: str) -> dict:
+    """What an earlier fakesnow process left inside the database file: its metadata tables/views (holding the user's comments and lengths)."""
+    import fakesnow.info_schema as finfo
+    import fakesnow.macros as fmac
+
+    tmp = Engine()
+    c = tmp.connect()
+    c.execute(f"ATTACH DATABASE ':memory:' AS {db}")
+    c.execute(finfo.creation_sql(db))
+    c.execute(fmac.creation_sql(db))
+    return tmp.dbs[db]["schemas"]
+
+
+def _reattach(create_sc: bool, sc_exists: bool, si: int) -> bool:
+    """db_path mode: the database FILE exists (written by an earlier process) but is not attached in this instance.
+    connect() must attach it and leave every object in it - including fakesnow's own metadata tables - as it was."""
+    eng = Engine()
+    fs = instance(eng, True, create_sc, "/data/fs")
+    content = _bootstrap_objects("DB1")
+    if sc_exists:
+        content["S1"] = {}
+    from vf.duckstub import Tbl
+
+    content.setdefault("S1" if sc_exists else "MAIN", {})["KEPT"] = Tbl([("A", "BIGINT")])
+    eng.disk["/data/fs/DB1.db"] = content
+    before = {(s, n): o for s, objs in content.items() for n, o in objs.items()}
+    schema = SCS[si]
+    conn = fs.connect(database="db1", schema=schema)
+    if not conn.database_set or eng.dbs.get("DB1", {}).get("file") != "/data/fs/DB1.db":
+        return False
+    after = {(s, n): o for s, objs in eng.dbs["DB1"]["schemas"].items() for n, o in objs.items()}
+    for key, obj in before.items():
+        if after.get(key) is not obj:
+            return False  # an existing object was dropped or replaced by connecting
+    return True
+
+
 def _ladder(di: int, si: int, create_db: bool, create_sc: bool, db_exists: bool, sc_exists: bool, with_path: bool, other: bool):
     eng = Engine()
     db_path = "/data/fs" if with_path else None
@@ -127,6 +164,46 @@ def connect_ladder(di: int, si: int, create_db: bool, create_sc: bool, db_exists
     return done(ok)
 
 
+@ob(
+    "C14.reattaching_a_database_file_keeps_its_content",
+    encodes=["fakesnow.conn.FakeSnowflakeConnection.__init__ (ATTACH of an existing file, metadata bootstrap)", "fakesnow.info_schema.creation_sql", "fakesnow.macros.creation_sql"],
+    bounds="db_path mode, the database file exists on disk (with the metadata objects an earlier fakesnow process created, a user table, with/without the "
+    "requested schema) and is not attached yet; schema argument over the 6-name pool; create_schema_on_connect on/off: connect attaches that file and "
+    "every object in it keeps its identity (nothing dropped, replaced or re-created)",
+    timeout=(200, 400),
+    stubs=["K2 vf.duckstub.Engine with on-disk database files"],
+)
+def reattach(create_sc: bool, sc_exists: bool, si: int) -> bool:
+    """
+    pre: 0 <= si <= 5
+    post: _
+    """
+    from vf import fast
+
+    return done(fast.native(_reattach, bool(fast.pick(create_sc, 2)), bool(fast.pick(sc_exists, 2)), fast.pick(si, 6)))
+
+
+def _real_reattach(a: dict):
+    import tempfile
+
+    from fakesnow.instance import FakeSnow
+
+    with tempfile.TemporaryDirectory() as td:
+        fs = FakeSnow(db_path=td)
+        cur = fs.connect(database="db1", schema="s1").cursor()
+        cur.execute("create table kept (a varchar(7)) comment = 'keep me'")
+        cur.execute("insert into kept values ('x')")
+        fs.duck_conn.close()
+        fs2 = FakeSnow(db_path=td, create_schema_on_connect=a["create_sc"])
+        cur2 = fs2.connect(database="db1", schema="s1").cursor()
+        rows = cur2.execute("select a from kept").fetchall()
+        comment = cur2.execute("select comment from information_schema.tables where table_name = 'KEPT'").fetchall()
+        length = cur2.execute("select character_maximum_length from information_schema.columns where table_name = 'KEPT'").fetchall()
+        fs2.duck_conn.close()
+    bad = rows != [("x",)] or comment != [("keep me",)] or length != [(7,)]
+    return bad, f"real stack after reconnecting from a new instance: rows {rows}, comment {comment}, length {length}"
+
+
 def _real_ladder(a: dict):
     """Real-stack replay: same configuration on real DuckDB through FakeSnow.connect."""
     import tempfile
@@ -183,3 +260,5 @@ def _real_ladder(a: dict):
 
 
 REGISTRY["C14.connect_ladder"].real_replay = _real_ladder
+
+REGISTRY["C14.reattaching_a_database_file_keeps_its_content"].real_replay = _real_reattach
